@@ -53,7 +53,12 @@ def run(ctx, F):
             key = sym.strip_transparent(S.operand(b, lt["args"][1]))
             # the key must be `<found file>.data.source.name` (SourceFile::path inlined)
             key_s = sym.show(key)
-            path_fn = prog.one("<input::sourcefile::SourceFile>::path")
+            # the accessor is found by its use (whatever its name): the function whose result is handed to load_module
+            key0 = sym.strip_transparent(sym.Sym(prog, inline_depth=0).operand(b, lt["args"][1]))
+            if key0[0] == "call" and key0[1] in prog.bodies and (prog.bodies[key0[1]].raw.get("self_ty") or "").endswith("SourceFile"):
+                path_fn = prog.bodies[key0[1]]
+            else:
+                path_fn = prog.one("<input::sourcefile::SourceFile>::path")
             path_term = sym.strip_transparent(S.local(path_fn, 0))   # e.g. arg1.data.source.name
             ok = False
             if key[0] in ("proj",) and path_term[0] == "param":
